@@ -268,9 +268,8 @@ func (svc *service) stop() {
 		svc.sessMgr.Del(svc.sess.ID())
 	}
 
-	svc.conn = nil
-	svc.in = nil
-	svc.out = nil
+	// conn, in and out are left in place: other connections' goroutines may
+	// still be delivering to this service and find the closed buffers (EOF).
 }
 
 func (svc *service) publish(msg *message.PublishMessage, onComplete OnCompleteFunc) error {
